@@ -4,6 +4,7 @@ package main
 // rejection), C19 (token positions).
 
 import (
+	"time"
 	"fmt"
 	"sort"
 	"strconv"
@@ -14,7 +15,7 @@ var directiveKeywords = []string{"@if", "@else", "@elseif", "@end", "@use", "@re
 	"@continue", "@continueIf", "@break", "@breakIf", "@component", "@slot", "@dump"}
 
 func sigma() []string {
-	syms := []string{"@", "\\", "{", "}", "{{", "}}", "-", "--", "{{--", "--}}", "(", ")", "x", " ", "\n", "\r", "é", "\xff", "if", "If", "i", "I", "\""}
+	syms := []string{"@", "\\", "{", "}", "{{", "}}", "-", "--", "{{--", "--}}", "(", ")", "x", " ", "\n", "\r", "é", "\xff", "if", "If", "i", "I", "\"", "\xef\xbb\xbf", "\x00"}
 	seen := map[string]bool{}
 	for _, s := range syms {
 		seen[s] = true
@@ -143,8 +144,40 @@ func casesC05(g *Gen) []*Case {
 	for i := 0; i < g.scale(6000, 150000); i++ {
 		addText(g.sigmaRandom(syms, g.scale(10, 40)))
 	}
+	// bytes that editors add or strip: a byte order mark at the start (and elsewhere), NUL, other white space
+	for _, pre := range []string{"\xef\xbb\xbf", "\xef\xbb\xbf\xef\xbb\xbf", "\xfe\xff", "\x00", "\v\f", "\u00a0", "\u2028\u2029", "\r\n", "\n\n"} {
+		for _, body := range []string{"", "text", "{{ 1 }}", "\ntext {{ \"x\" }}", "@if(true)y@end", pre} {
+			src := pre + body
+			want := src
+			switch body {
+			case "{{ 1 }}":
+				want = pre + "1"
+			case "\ntext {{ \"x\" }}":
+				want = pre + "\ntext x"
+			case "@if(true)y@end":
+				want = pre + "y"
+			}
+			c := evalCase("leading_special_bytes", src, nil)
+			c.Oracle = expectOut(want)
+			add(c)
+			t := newTree()
+			t.files["f/x.tw"] = src
+			ch := histCase("leading_special_bytes_file", t, []string{opEvf("f/x.tw", nil)}, "EvaluateFile of "+strconv.Quote(src))
+			ch.Oracle = expectResults(map[int]func(string) string{0: wantOK(want)})
+			add(ch)
+		}
+	}
+	// text that starts with a parenthesis right after a directive that takes none
+	for src, want := range map[string]string{
+		"@if(true)yes@end(ok)": "yes(ok)", "@if(false)a@else(b)@end": "(b)", "@each(v in [1, 2])@break(x)@end!": "!", "@each(v in [1, 2])@continue(x)@end!": "!",
+		"@each(v in [1])@if(true)@end(z){{ v }}@end": "(z)1", "@if(true)@end()": "()", "@if(false)@else(@end": "(",
+	} {
+		c := evalCase("paren_after_parenless_directive", src, nil)
+		c.Oracle = expectOut(want)
+		add(c)
+	}
 	// plain text generator (to reach long plain strings)
-	plainSyms := []string{"@", "\\", "{", "}", "}}", "-", "--", "--}}", "(", ")", "x", " ", "\n", "\r", "é", "\xff", "@i", "@els", "@en", "@ ", "@@", "{ {", "\\\\", "<p>", "a@b.c"}
+	plainSyms := []string{"@", "\\", "{", "}", "}}", "-", "--", "--}}", "(", ")", "x", " ", "\n", "\r", "é", "\xff", "@i", "@els", "@en", "@ ", "@@", "{ {", "\\\\", "<p>", "a@b.c", "\xef\xbb\xbf", "\xef\xbb", "\x00", "\v", "\f", "\u00a0", "\u2028"}
 	plain := func(maxLen int) string {
 		for {
 			s := g.sigmaRandom(plainSyms, maxLen)
@@ -502,6 +535,14 @@ func casesC19(g *Gen) []*Case {
 	for i := 0; i < g.scale(8000, 200000); i++ {
 		pre := g.pick([]string{"", "ab\n", "é ", "\n\n"})
 		add("code_soup", pre+"{{ "+g.sigmaRandom(code, 10)+" }}"+g.pick([]string{"", "z", "\n@end"}))
+	}
+	// very long lines (minified markup, inlined images): columns beyond 16 bits
+	for _, n := range []int{65530, 65536, 70001} {
+		long := "<p>" + strings.Repeat("a", n) + "{{ x }}tail\nnext {{ y }}\n@if(z)q@end"
+		c := lexCase("long_line", long)
+		c.Oracle = oracleC19
+		c.Timeout = 60 * time.Second
+		cs = append(cs, c)
 	}
 	return cs
 }
